@@ -1,18 +1,13 @@
 import Pfst.TableCheck
 import Pfst.Gen.SyntaxOrder
-/-! C14, table part 2 (separate module: the kernel evaluation takes ~30 s). -/
+/-! C14, tables: static field orders. -/
 namespace Pfst.C14
 open Pfst
 
-/-- `syntax_ordered_children` returns every AST child of the parent exactly once (nothing dropped, nothing twice), for
-every tabulated parent shape.  The children are the `ast.AST` instances in the fields CPython's class docstring declares. -/
-theorem order_covers : Gen.SyntaxOrder.shapesEnc.all TableCheck.coversOk = true := by
-  decide +kernel
-
 /-- For every class listed in `Gen.SyntaxOrder.fieldOrder` the child list is, for every tabulated shape, the
 concatenation of the field blocks in that one fixed order of fields (list fields in index order). -/
-theorem static_field_order :
-    Gen.SyntaxOrder.shapesEnc.all (TableCheck.staticOk Gen.SyntaxOrder.fieldOrder) = true := by
+theorem static_field_order_A :
+    Gen.SyntaxOrder.shapesEncA.all (TableCheck.staticOk Gen.SyntaxOrder.fieldOrder) = true := by
   decide +kernel
 
 /-- The classes without a fixed field order are exactly the six position/index-interleaved ones (plus the two node
